@@ -247,8 +247,16 @@ fn extra(cfg: &Cfg, stats: &mut Stats) {
     for i in 0..n {
         let case = fmtwork::case(cfg, (i * 37) % fmtwork::total(cfg));
         let good = case.text.clone();
+        // unparseable variants: junk at the end, and a token-level mutation somewhere inside (kept only if it really does
+        // not parse)
         let bad = format!("{} )))", good);
-        for (label, text) in [("parseable", good), ("unparseable", bad)] {
+        let mut mrng = crate::util::rng::Rng::for_case(cfg.seed, "C12/cli-mutation", i);
+        let mutated = (0..8).map(|_| e2::mutate::mutate_tokens(&good, &mut mrng, 1)).find(|t| matches!(e2::parse(t), Ok(Err(_))));
+        let mut variants = vec![("parseable", good), ("unparseable", bad)];
+        if let Some(m) = mutated {
+            variants.push(("unparseable-mutated", m));
+        }
+        for (label, text) in variants {
             let path = scratch.write(&format!("f{}_{}.zy", i, label), text.as_bytes());
             let r = proc::run(&bin, &["fmt", path.to_str().unwrap()], Some(scratch.path()), b"", 60, 300);
             let after = std::fs::read(&path).unwrap_or_default();
